@@ -3,7 +3,8 @@
     output rows of a stateless chain is the sequential result, and per-worker sorted runs merge to
     the sorted input. *)
 From Coq Require Import List Arith Bool Lia Permutation Sorted ZArith.
-From GV Require Import Par.Merge Par.Morsel Par.Push Par.Sched Par.ProofsHeap Par.ProofsMerge Par.ProofsPush Par.ProofsChain Par.ProofsDistinct.
+From GV Require Import Par.Merge Par.Morsel Par.Push Par.Sched Par.ProofsHeap Par.ProofsMerge Par.ProofsPush Par.ProofsChain Par.ProofsDistinct
+     Par.ProofsExt Par.ProofsStable.
 Import ListNotations.
 Local Open Scope nat_scope.
 
@@ -34,19 +35,6 @@ Theorem schedule_perm_l : forall {Y} (f : nat -> list Y) (nm : nat) (sch : sched
 Proof.
   intros Y f nm sch H. rewrite concat_map_concat. apply perm_concat_map. exact H.
 Qed.
-
-Lemma chunks_fuel_concat : forall {X} n fuel (l : list X), 0 < n -> length l <= fuel ->
-  concat (chunks_fuel fuel n l) = l.
-Proof.
-  intros X n. induction fuel as [|f IH]; intros l Hn Hl.
-  - destruct l; [reflexivity|cbn in Hl; lia].
-  - cbn [chunks_fuel]. destruct l as [|x t]; [reflexivity|].
-    cbn [concat]. rewrite IH; auto.
-    + apply firstn_skipn.
-    + rewrite skipn_length. cbn [length] in *. lia.
-Qed.
-Lemma chunks_of_concat : forall {X} n (l : list X), 0 < n -> concat (chunks_of n l) = l.
-Proof. intros. unfold chunks_of. apply chunks_fuel_concat; auto. Qed.
 
 Lemma in_firstn : forall {X} n (l : list X) x, In x (firstn n l) -> In x l.
 Proof. intros X. induction n as [|n IH]; intros [|y l] x H; cbn in *; try tauto. destruct H; auto. Qed.
@@ -93,60 +81,6 @@ Section SchedProofs.
     rewrite (stateless_app ks H), IH. reflexivity.
   Qed.
 
-  Lemma stateless_push : forall (k : opk) s c, stateless_op k = true -> push keq k s c = (s, keep (spec keq k c), true).
-  Proof. intros k s c H. destruct k; try discriminate; reflexivity. Qed.
-
-  Lemma keep_nil_iff : forall (c : list R), keep c = [] -> c = [].
-  Proof. intros [|x c] H; [reflexivity|discriminate]. Qed.
-
-  (** one chunk through a stateless chain: the chunk of the specification (dropped when empty), continue *)
-  Lemma push_through_stateless : forall ks, stateless ks -> forall ss c,
-    exists ss', push_through keq ks ss c = (ss', keep (chain_spec ks c), true).
-  Proof.
-    induction ks as [|k ks IH]; intros H ss c.
-    - exists []. reflexivity.
-    - apply stateless_cons in H. destruct H as [Hk Hks].
-      cbn [push_through]. rewrite (stateless_push k (hd_st ss) c Hk). rewrite chain_spec_cons.
-      destruct ks as [|k2 ks'].
-      + eexists. reflexivity.
-      + cbn [negb orb].
-        destruct (spec keq k c) as [|x t] eqn:E.
-        * cbn [keep]. rewrite (stateless_nil (k2 :: ks') Hks). eexists. reflexivity.
-        * cbn [keep concat]. rewrite app_nil_r.
-          destruct (IH Hks (tl ss) (x :: t)) as [ss' E2]. rewrite E2. eexists. reflexivity.
-  Qed.
-
-  Lemma push_all_stateless_out : forall ks, stateless ks -> forall cs ss,
-    concat (snd (push_all keq ks ss cs)) = chain_spec ks (concat cs).
-  Proof.
-    intros ks H. induction cs as [|c r IH]; intro ss.
-    - cbn. symmetry. apply stateless_nil. exact H.
-    - cbn [push_all concat]. rewrite (stateless_app ks H).
-      destruct (push_through_stateless ks H ss c) as [ss' E]. rewrite E.
-      specialize (IH ss'). destruct (push_all keq ks ss' r) as [ss'' o2]. cbn [snd] in *.
-      rewrite concat_app, concat_keep, IH. reflexivity.
-  Qed.
-
-  Lemma push_all_nil : forall (ks : list opk) ss, push_all keq ks ss [] = (ss, []).
-  Proof. reflexivity. Qed.
-
-  Lemma finalize_all_stateless : forall ks, stateless ks -> forall ss, finalize_all keq ks ss = [].
-  Proof.
-    induction ks as [|k ks IH]; intros H ss; [reflexivity|].
-    apply stateless_cons in H. destruct H as [Hk Hks].
-    cbn [finalize_all].
-    assert (F : finish k (hd_st ss) = []) by (destruct k; try discriminate; reflexivity).
-    rewrite F. destruct ks as [|k2 ks']; [reflexivity|].
-    rewrite push_all_nil. cbn [app]. apply IH. exact Hks.
-  Qed.
-
-  Lemma push_all_stateless : forall ks, stateless ks -> forall cs ss,
-    concat (snd (push_all keq ks ss cs)) = chain_spec ks (concat cs)
-    /\ finalize_all keq ks (fst (push_all keq ks ss cs)) = [].
-  Proof.
-    intros ks H cs ss. split; [apply push_all_stateless_out; exact H|apply finalize_all_stateless; exact H].
-  Qed.
-
   Lemma worker_rows : forall csize (rows : list R) ms mine, 0 < csize ->
     concat (concat (map (fun i => morsel_chunks csize rows (nth i ms dummy_morsel)) mine))
     = concat (map (fun i => slice rows (nth i ms dummy_morsel)) mine).
@@ -155,15 +89,26 @@ Section SchedProofs.
     rewrite concat_app, IH. unfold morsel_chunks. rewrite chunks_of_concat by exact Hc. reflexivity.
   Qed.
 
+
+  (** *** ANY chain (filters, projections, DISTINCTs, sorts, LIMITs): a worker pushes every chunk of its
+      morsels whatever the chain answers, then finalizes: it computes the sequential chain on the rows
+      of its own morsels, whatever the chunk size *)
+  Theorem worker_run_spec_l : forall (ks : list opk) csize (rows : list R) ms mine, 0 < csize ->
+    concat (worker_run keq ks csize rows ms mine)
+    = chain_spec ks (concat (map (fun i => slice rows (nth i ms dummy_morsel)) mine)).
+  Proof.
+    intros ks csize rows ms mine Hc. unfold worker_run.
+    set (cs := concat (map (fun i => morsel_chunks csize rows (nth i ms dummy_morsel)) mine)).
+    pose proof (total_run_spec keq ks cs) as T. unfold total_run in T.
+    destruct (push_all keq ks (init_chain ks) cs) as [ss o]. cbn [fst snd] in T. rewrite T. unfold cs.
+    rewrite worker_rows by exact Hc. reflexivity.
+  Qed.
+
   Lemma worker_stateless : forall ks, stateless ks -> forall csize rows ms mine, 0 < csize ->
     concat (worker_run keq ks csize rows ms mine)
     = concat (map (fun i => chain_spec ks (slice rows (nth i ms dummy_morsel))) mine).
   Proof.
-    intros ks H csize rows ms mine Hc. unfold worker_run.
-    set (cs := concat (map (fun i => morsel_chunks csize rows (nth i ms dummy_morsel)) mine)).
-    destruct (push_all_stateless ks H cs (init_chain ks)) as [I1 I2].
-    destruct (push_all keq ks (init_chain ks) cs) as [ss o]. cbn [fst snd] in *.
-    rewrite I2, app_nil_r, I1. unfold cs. rewrite worker_rows by exact Hc.
+    intros ks H csize rows ms mine Hc. rewrite worker_run_spec_l by exact Hc.
     rewrite (stateless_concat ks H), map_map. reflexivity.
   Qed.
 
@@ -207,96 +152,37 @@ Section SchedProofs.
     rewrite <- (stateless_concat ks H), Hcov. reflexivity.
   Qed.
 
-  (** *** chains without any LIMIT (filters, projections, DISTINCTs, sorts in any order): a worker
-      computes the sequential chain on the rows of its own morsels, whatever the chunk size *)
-  Definition no_limit (ks : list opk) : bool := forallb (fun k => negb (is_limit k)) ks.
-
-  Lemma push_no_limit_true : forall (k : opk) s c, is_limit k = false -> snd (push keq k s c) = true.
-  Proof.
-    intros k s c H. destruct k; try discriminate; cbn [Push.push snd]; try reflexivity.
-    destruct (fresh keq key (s_seen s) c). reflexivity.
-  Qed.
-
-  Lemma push_through_no_limit : forall (ks : list opk), no_limit ks = true -> forall ss c,
-    snd (push_through keq ks ss c) = true.
-  Proof.
-    induction ks as [|k ks IH]; intros H ss c; [reflexivity|].
-    unfold no_limit in H. cbn [forallb] in H. apply andb_true_iff in H. destruct H as [H1 H2].
-    apply negb_true_iff in H1. cbn [push_through].
-    pose proof (push_no_limit_true k (hd_st ss) c H1) as P.
-    destruct (push keq k (hd_st ss) c) as [[s' out] cont]. cbn [snd] in P. subst cont.
-    destruct ks as [|k2 ks']; [reflexivity|]. cbn [negb orb].
-    destruct out as [|o1 ot]; [reflexivity|].
-    specialize (IH H2 (tl ss) (concat (o1 :: ot))).
-    destruct (push_through keq (k2 :: ks') (tl ss) (concat (o1 :: ot))) as [[ss' o] c']. cbn [snd] in *. exact IH.
-  Qed.
-
-  Lemma push_all_drive_chain : forall (ks : list opk), no_limit ks = true -> forall cs ss,
-    push_all keq ks ss cs = drive_chain keq ks ss cs.
-  Proof.
-    intros ks H. induction cs as [|c r IH]; intro ss; [reflexivity|].
-    cbn [push_all drive_chain]. pose proof (push_through_no_limit ks H ss c) as P.
-    destruct (push_through keq ks ss c) as [[ss' o] cont]. cbn [snd] in P. subst cont. rewrite IH. reflexivity.
-  Qed.
-
-  Lemma no_limit_inner : forall (ks : list opk), no_limit ks = true -> no_inner_limit ks = true.
-  Proof.
-    induction ks as [|k ks IH]; intro H; [reflexivity|].
-    unfold no_limit in H. cbn [forallb] in H. apply andb_true_iff in H. destruct H as [H1 H2].
-    destruct ks as [|k2 ks']; [reflexivity|].
-    change (Push.no_inner_limit (k :: k2 :: ks')) with (negb (is_limit k) && Push.no_inner_limit (k2 :: ks')).
-    rewrite H1. apply IH. exact H2.
-  Qed.
-
-  Theorem worker_run_spec_l : forall (ks : list opk), forallb (fun k => negb (is_limit k)) ks = true ->
-    forall csize (rows : list R) ms mine, 0 < csize ->
-    concat (worker_run keq ks csize rows ms mine)
-    = Push.chain_spec keq ks (concat (map (fun i => slice rows (nth i ms dummy_morsel)) mine)).
-  Proof.
-    intros ks H csize rows ms mine Hc. unfold worker_run.
-    set (cs := concat (map (fun i => morsel_chunks csize rows (nth i ms dummy_morsel)) mine)).
-    rewrite (push_all_drive_chain ks H).
-    pose proof (chain_no_inner_limit_l keq ks (no_limit_inner ks H) cs) as P. unfold run_chain in P.
-    destruct (drive_chain keq ks (init_chain ks) cs) as [ss o]. rewrite P. unfold cs.
-    rewrite worker_rows by exact Hc. reflexivity.
-  Qed.
-
-  (** *** per-worker sort, then the k-way merge of the workers' runs *)
+  (** *** per-worker sort, then the k-way merge of the workers' sorted chunks *)
   Variable cmp : R -> R -> comparison.
   Variable P : R -> Prop.
-  Hypothesis leb_total : forall a b, P a -> P b -> leb cmp a b = true \/ leb cmp b a = true.
+  Hypothesis cmp_antisym : forall a b, P a -> P b -> cmp b a = CompOpp (cmp a b).
   Hypothesis leb_trans : forall a b c, P a -> P b -> P c ->
       leb cmp a b = true -> leb cmp b c = true -> leb cmp a c = true.
+  Notation sorted := (StronglySorted (le cmp)).
 
-  Lemma push_all_sort : forall cs s,
-    snd (push_all keq [OSort cmp] [s] cs) = []
-    /\ exists s', fst (push_all keq [OSort cmp] [s] cs) = [s'] /\ s_buf s' = s_buf s ++ concat cs.
+  Lemma sorted_firstn : forall n (l : list R), sorted l -> sorted (firstn n l).
   Proof.
-    induction cs as [|c r IH]; intro s.
-    - cbn. split; auto. exists s. rewrite app_nil_r. auto.
-    - cbn [push_all push_through Push.push hd_st].
-      set (s1 := {| s_passed := s_passed s; s_seen := s_seen s; s_buf := s_buf s ++ c |}).
-      destruct (IH s1) as [I1 [s' [I2 I3]]]. destruct (push_all keq [OSort cmp] [s1] r) as [ss o]. cbn [fst snd] in *.
-      subst o. split; [reflexivity|]. exists s'. split; auto. rewrite I3. cbn. rewrite app_assoc. reflexivity.
+    induction n as [|n IH]; intros l H; [constructor|]. destruct l as [|x t]; [constructor|].
+    inversion H as [|? ? Hs Hf]; subst. cbn [firstn]. constructor; [apply IH; exact Hs|].
+    rewrite Forall_forall in *. intros y Hy. apply Hf. eapply in_firstn. exact Hy.
   Qed.
-
-  Lemma worker_sort : forall csize rows ms mine, 0 < csize ->
-    worker_run keq [OSort cmp] csize rows ms mine
-    = keep (isort cmp (concat (map (fun i => slice rows (nth i ms dummy_morsel)) mine))).
+  Lemma sorted_skipn : forall n (l : list R), sorted l -> sorted (skipn n l).
   Proof.
-    intros csize rows ms mine Hc. unfold worker_run.
-    set (cs := concat (map (fun i => morsel_chunks csize rows (nth i ms dummy_morsel)) mine)).
-    cbn [init_chain map].
-    destruct (push_all_sort cs st0) as [I1 [s' [I2 I3]]].
-    destruct (push_all keq [OSort cmp] [st0] cs) as [ss o]. cbn [fst snd] in *. subst o ss.
-    cbn [app finalize_all hd_st finish]. rewrite I3. cbn [st0 s_buf app]. unfold cs.
-    rewrite worker_rows by exact Hc. reflexivity.
+    induction n as [|n IH]; intros l H; [exact H|]. destruct l as [|x t]; [constructor|].
+    inversion H; subst. cbn [skipn]. apply IH. assumption.
+  Qed.
+  Lemma chunks_fuel_sorted : forall fuel n (l : list R), sorted l -> Forall sorted (chunks_fuel fuel n l).
+  Proof.
+    induction fuel as [|f IH]; intros n l H; [constructor|]. cbn [chunks_fuel].
+    destruct l as [|x t]; [constructor|]. constructor; [apply sorted_firstn; exact H|].
+    apply IH. apply sorted_skipn. exact H.
   Qed.
 
   Theorem schedule_sort_l : forall csize (rows : list R) ms sch, 0 < csize -> Forall P rows ->
     concat (map (slice rows) ms) = rows -> valid_schedule (length ms) sch ->
     let parts := parallel_run keq [OSort cmp] csize rows ms sch in
-    StronglySorted (fun a b => leb cmp a b = true) (merge_sorted_runs cmp parts)
+    merge_sorted_runs cmp parts = isort cmp (concat parts)
+    /\ StronglySorted (fun a b => leb cmp a b = true) (merge_sorted_runs cmp parts)
     /\ Permutation (merge_sorted_runs cmp parts) rows.
   Proof.
     intros csize rows ms sch Hc HP Hcov Hv. cbn zeta.
@@ -304,7 +190,7 @@ Section SchedProofs.
     assert (Hperm : Permutation (concat parts) rows).
     { unfold parts, parallel_run. rewrite concat_concat', map_map.
       rewrite (map_ext _ (fun w => isort cmp (concat (map (fun i => slice rows (nth i ms dummy_morsel)) w)))).
-      2:{ intro w. rewrite worker_sort by exact Hc. apply concat_keep. }
+      2:{ intro w. rewrite worker_run_spec_l by exact Hc. reflexivity. }
       eapply perm_trans.
       { instantiate (1 := concat (map (fun w => concat (map (fun i => slice rows (nth i ms dummy_morsel)) w)) sch)).
         clear. induction sch as [|w t IH]; cbn; auto. apply Permutation_app; auto. apply isort_perm. }
@@ -315,16 +201,23 @@ Section SchedProofs.
     assert (Hs : Forall (fun r => sortedb cmp r = true) parts).
     { apply Forall_forall. intros r Hr. unfold parts, parallel_run in Hr.
       apply in_concat in Hr. destruct Hr as [w [Hw Hr]]. apply in_map_iff in Hw. destruct Hw as [mine [<- _]].
-      rewrite worker_sort in Hr by exact Hc.
-      set (l := concat (map (fun i => slice rows (nth i ms dummy_morsel)) mine)) in *.
+      unfold worker_run in Hr. cbn [init_chain map] in Hr.
+      set (cs := concat (map (fun i => morsel_chunks csize rows (nth i ms dummy_morsel)) mine)) in *.
+      rewrite push_all_single in Hr. destruct (outs_sort keq cmp cs st0) as [E1 E2]. rewrite E1 in Hr.
+      cbn [app Push.finalize_all hd_st Push.finish] in Hr. rewrite E2 in Hr. cbn [st0 s_buf app] in Hr.
+      set (l := concat cs) in *.
       assert (Pl : Forall P l).
-      { unfold l. apply Forall_forall. intros y Hy. apply in_concat in Hy. destruct Hy as [sl [Hsl Hy]].
-        apply in_map_iff in Hsl. destruct Hsl as [i [<- _]]. rewrite Forall_forall in HP. apply HP.
-        eapply slice_in; eauto. }
-      destruct (isort cmp l) as [|x t] eqn:E; [destruct Hr|]. destruct Hr as [<-|[]].
-      rewrite <- E. apply (strong_sortedb cmp). apply (isort_sorted cmp P leb_total leb_trans). exact Pl. }
-    destruct (merge_sorted_runs_spec cmp P leb_total leb_trans parts HPp Hs) as [S1 S2].
-    split; [exact S1|]. eapply perm_trans; eauto.
+      { unfold l, cs. rewrite worker_rows by exact Hc. apply Forall_forall. intros y Hy. apply in_concat in Hy.
+        destruct Hy as [sl [Hsl Hy]]. apply in_map_iff in Hsl. destruct Hsl as [i [<- _]].
+        rewrite Forall_forall in HP. apply HP. eapply slice_in; eauto. }
+      assert (Sl : sorted (isort cmp l))
+        by (apply (isort_sorted cmp P (leb_total_of_antisym cmp P cmp_antisym) leb_trans); exact Pl).
+      pose proof (chunks_fuel_sorted (length (isort cmp l)) 2048 (isort cmp l) Sl) as F.
+      rewrite Forall_forall in F. apply (strong_sortedb cmp). apply F. exact Hr. }
+    pose proof (merge_sorted_runs_stable_l cmp P cmp_antisym leb_trans parts HPp Hs) as E.
+    split; [exact E|]. rewrite E. split.
+    - apply (isort_sorted cmp P (leb_total_of_antisym cmp P cmp_antisym) leb_trans). exact HPp.
+    - eapply perm_trans; [apply isort_perm|exact Hperm].
   Qed.
 End SchedProofs.
 
@@ -339,7 +232,7 @@ Proof.
   intros R req Hreq csize rows ms sch Hc Hcov Hv. unfold parallel_run.
   rewrite concat_concat', map_map.
   rewrite (map_ext _ (fun w => dedup req (fun r => r) [] (concat (map (fun i => slice rows (nth i ms dummy_morsel)) w)))).
-  2:{ intro w. rewrite (worker_run_spec_l req [ODistinct (fun r : R => r)] eq_refl csize rows ms w Hc). reflexivity. }
+  2:{ intro w. rewrite (worker_run_spec_l req [ODistinct (fun r : R => r)] csize rows ms w Hc). reflexivity. }
   rewrite <- (map_map (fun w => concat (map (fun i => slice rows (nth i ms dummy_morsel)) w)) (dedup req (fun r => r) [])).
   apply (distinct_schedule_independent_l req Hreq).
   eapply perm_trans; [apply (schedule_perm_l (fun i => slice rows (nth i ms dummy_morsel)) (length ms) sch Hv)|].
